@@ -252,7 +252,8 @@ impl TopicActor {
 
     fn delete(&mut self) -> Result<(), DeleteError> {
         if self.deleted {
-            return Ok(());
+            // Someone else's delete got here first; for this caller the topic is gone.
+            return Err(DeleteError::DoesNotExist);
         }
 
         // Mark the topic as deleted.
